@@ -95,6 +95,7 @@ def generate(tier, rng):
                     c["queries"].append({"fn": "get", "start": start, "path": p, "ignorecase": q_ic, "relax": False, "pair": True})
         yield c
     yield rc.casetable_case()
+    yield rc.casetable_sparse_case()
     # all of Unicode, judged without the model: history independence (the shared pattern cache), strict within relaxed
     for _ in range(150 if tier == "quick" else 2000):
         t = gen.labelled(gen.random_shape(rng, rng.randrange(2, 8 if tier == "quick" else 12)), rng, True)
